@@ -1,6 +1,6 @@
 SPECIFICATION Spec
 CONSTANTS MaxOps = 4
-  HistChoices <- HistsSeq
+  HistChoices <- HistsSeq2
   Targets <- TargetsSeq
   NevTargets <- NevSeq
   AddWeights <- WeightsSeq
